@@ -89,10 +89,13 @@ def run(ids, props=None, tier='quick'):
                 lines = [l for l in o.split('\n') if l.startswith(('VIOLATION', 'UNDECIDED', 'ERROR', 'KNOWN'))]
                 import re as _re
                 names = sorted({m.group(1) + '=' + m.group(2).split('#')[0] for l in lines if l.startswith('VIOLATION')
+                                and 'check=contract-sweep' not in l
                                 for m in [_re.search(r'\b(check|obligation)=(\S+)', l)] if m})
+                swept = sorted({m.group(1).split('#')[0] for l in lines if l.startswith('VIOLATION')
+                                and 'check=contract-sweep' in l for m in [_re.search(r'\bobligation=(\S+)', l)] if m})
                 open_ = sorted({m.group(1).split('#')[0] for l in lines if l.startswith('UNDECIDED')
                                 for m in [_re.search(r'\bobligation=(\S+)', l)] if m})
-                res[prop] = {'exit': rc, 'wall_s': round(time.time() - t, 1), 'caught_by': names, 'undecided': open_,
+                res[prop] = {'exit': rc, 'wall_s': round(time.time() - t, 1), 'caught_by': names, 'caught_by_sweep': swept, 'undecided': open_,
                              'reproduced': any(l.startswith('VIOLATION') and 'no-failing-input-found' not in l for l in lines),
                              'lines': [l.replace(d, '<tree>')[:300] for l in lines[:6]], 'stderr': e[-300:] if rc == 3 else ''}
             meta['detection'] = res
